@@ -209,7 +209,9 @@ def gen_hdc_cases(rng, n, thorough):
         if form == 0:
             # scalar delta for all dimensions: the coarsest of the per-dimension steps, so that no axis gets
             # more than `cells` cells (ranges of heavy-tailed doubles differ by orders of magnitude)
-            deltas = float(max(deltas))
+            dmax = float(max(deltas))
+            if min((hi - lo) / dmax for lo, hi in limits) >= 4:
+                deltas = dmax
         yield {"part": "C", "mode": "table" if table else "doubles", "alpha": alpha, "model": m.describe(),
                "limits": limits, "deltas": deltas}
 
